@@ -1,15 +1,24 @@
 /*@UNIT
 {
-  "property": "C17",
-  "unit": "chacha_encrypt",
-  "function": "csChacha20Poly1305IetfEncrypt",
-  "source": "matrixssl/cipherSuite.c",
-  "keep_bodies": ["psEncodeVersionMaj", "psEncodeVersionMin", "psEncodeVersion"],
-  "assumed": ["psChacha20Poly1305IetfEncrypt (model: records nonce, AAD, length in ghosts)"],
-  "mode": "proof",
-  "why_proof": "all loops have constant bounds (8-byte counter, 12-byte nonce), fully unwound with unwinding assertions",
-  "unwind": 14,
-  "native_replay": true
+ "property": "C17",
+ "unit": "chacha_encrypt",
+ "function": "csChacha20Poly1305IetfEncrypt",
+ "source": "matrixssl/cipherSuite.c",
+ "keep_bodies": [
+  "psEncodeVersionMaj",
+  "psEncodeVersionMin",
+  "psEncodeVersion"
+ ],
+ "assumed": [
+  "psChacha20Poly1305IetfEncrypt (model: records nonce, AAD, length in ghosts)"
+ ],
+ "mode": "proof",
+ "why_proof": "all loops have constant bounds (8-byte counter, 12-byte nonce), fully unwound with unwinding assertions",
+ "unwind": 14,
+ "native_replay": true,
+ "properties": [
+  "C10"
+ ]
 }
 @*/
 /* C17.U1 / C10  TLS 1.2 ChaCha20-Poly1305 record sealing (RFC 7905 s.2):
